@@ -954,6 +954,75 @@ impl Ctx {
         }
     }
 
+    /// a store loaded from one directory and written to another (absolute and relative target), and the store of
+    /// the request built in memory once more and written with to_file() as the first thing that names it
+    /// (absolute working directory; every fourth request: no working directory at all, relative target)
+    fn to_file_elsewhere(&self, req: &Sx, dir: &str, cfg: &Config, expect: &Sx, expect_ext: &Sx) -> i64 {
+        let same = |s: &AnnotationStore| observe(s) == *expect && observe_ext(s) == *expect_ext;
+        for (i, sub) in ["moved", "moved2"].iter().enumerate() {
+            let _ = std::fs::create_dir_all(format!("{}/{}", dir, sub));
+            let mut s4 = match AnnotationStore::from_file("main.store.stam.json", cfg.clone()) {
+                Ok(s) => s,
+                Err(_) => return -20,
+            };
+            let target = if i == 0 { format!("{}/{}/main.store.stam.json", dir, sub) } else { format!("{}/other.store.stam.json", sub) };
+            if s4.to_file(&target).is_err() {
+                return -21 - i as i64;
+            }
+            match AnnotationStore::from_file(&target, cfg.clone()) {
+                Ok(s5) => {
+                    if !same(&s5) {
+                        return -23 - i as i64;
+                    }
+                }
+                Err(_) => return -25 - i as i64,
+            }
+        }
+        // built in memory
+        let n = self.counter.load(AOrd::SeqCst);
+        let relative = n % 4 == 1;
+        let mdir = format!("{}/mem", dir);
+        let _ = std::fs::create_dir_all(format!("{}/backup", mdir));
+        let _ = std::fs::create_dir_all(format!("{}/out", mdir));
+        let old_cwd = std::env::current_dir().ok();
+        let mcfg = if relative {
+            if std::env::set_current_dir(&mdir).is_err() {
+                return -30;
+            }
+            Config::default().with_generate_ids(false).with_debug(false)
+        } else {
+            self.config(&mdir, false)
+        };
+        let result = guard(|| {
+            let built = if req.nth(0).int() == 0 { build_history(req.nth(1), req.nth(2), mcfg.clone()) } else { build_literal(req.nth(1), mcfg.clone()) };
+            let mut st = match built {
+                Some(s) => s,
+                None => return -31,
+            };
+            let target = if relative { "out/mem.store.stam.json".to_string() } else { format!("{}/out/mem.store.stam.json", mdir) };
+            if st.to_file(&target).is_err() {
+                return -32;
+            }
+            match AnnotationStore::from_file(&target, mcfg.clone()) {
+                Ok(s6) => {
+                    if same(&s6) {
+                        1
+                    } else {
+                        -33
+                    }
+                }
+                Err(_) => -34,
+            }
+        })
+        .unwrap_or(-35);
+        if relative {
+            if let Some(c) = old_cwd {
+                let _ = std::env::set_current_dir(c);
+            }
+        }
+        result
+    }
+
     fn exec_in(&self, req: &Sx, dir: &str) -> (Vec<Sx>, bool) {
         let cfg = self.config(dir, false);
         let cfgc = self.config(dir, true);
@@ -1017,6 +1086,10 @@ impl Ctx {
                 }
             }
             Err(_) => code = -14,
+        }
+        // to_file() into ANOTHER directory than the members were rooted in: all files below the store go along
+        if code == 1 {
+            code = self.to_file_elsewhere(req, dir, &cfg, &observe(&store2), &orig_ext);
         }
         let _ = std::fs::remove_file(format!("{}/main.store.stam.json", dir));
         let pretty2 = store2.to_json_string(&cfg).unwrap_or_default();
@@ -1768,5 +1841,5 @@ fn family(kind: usize, m: i64, ids: bool, gap: bool, so: usize) -> Sx {
     l(vec![a(1), l(vec![if ids { t("store") } else { a(-1) }, l(ress), l(sets), l(anns)])])
 }
 
-pub const RULE: &str = "(1) an exhaustive family of 432 literal stores: 9 selector kinds (text, annotation, annotation with offset, resource, dataset, key, data, multi, composite/directional) x 4 alignments x with/without public identifiers x with/without removed slots (annotation, key, data) x inline / stand-off txt / stand-off json; (2) seeded random literal stores: 1-3 resources with texts over an alphabet with quote, backslash, control characters, DEL, non-BMP and U+FFFF/U+10FFFF/U+2028, identifiers over the same alphabet, 0-2 datasets with keys, data with and without identifiers, values of all seven types (integer extremes, floats on the 1/1000 grid, nested lists to depth 2, datetimes with offsets and nanoseconds), up to 6 annotations over all selector kinds and alignments incl. offsets relative to annotations and complex selectors, removed slots of every item type, stand-off resources (txt, json, identifier = file name) and datasets; (3) save/modify/save families (14 kinds of modification x resource inline/txt/json x dataset inline/stand-off x once/twice) and an exhaustive small scope: a fixed prefix (resource, annotation with id and data, id-less annotation in mixed alignment) followed by EVERY sequence of 2 (thorough: 3) operations from an alphabet of 22 (all selector kinds, alignments, relative offsets, complex selectors, removals of every kind, save); (3a) exports of copies between modification and save (to_txt_file / to_json_file of a resource, to_json_file of a dataset or of the store document, to backup/ under the member's own file name or another name; 192 requests, and sprinkled over the random histories); (4) histories with one or two sub-stores (family of 60 + random, natural arrangement and late additions; annotations handed to a sub-store in another order than they were made, with and without public ids, moved between sub-stores), (5) the final stores of seeded random histories of the shared store generator (all operations incl. removals with cascades, ids and handles, invalid references, range compression) inline and with stand-off members. Each store is written as STAM JSON pretty and compact, both outputs are parsed into trees and compared with the model's documents, the stand-off files likewise; the store is loaded again from the string and from a file, observed again (canonical observation by names, slot layout, every reverse lookup and id resolution by name), written again (bytes equal), saved with save(). One evaluation = one compared sub-case (8 per store).";
+pub const RULE: &str = "(1) an exhaustive family of 432 literal stores: 9 selector kinds (text, annotation, annotation with offset, resource, dataset, key, data, multi, composite/directional) x 4 alignments x with/without public identifiers x with/without removed slots (annotation, key, data) x inline / stand-off txt / stand-off json; (2) seeded random literal stores: 1-3 resources with texts over an alphabet with quote, backslash, control characters, DEL, non-BMP and U+FFFF/U+10FFFF/U+2028, identifiers over the same alphabet, 0-2 datasets with keys, data with and without identifiers, values of all seven types (integer extremes, floats on the 1/1000 grid, nested lists to depth 2, datetimes with offsets and nanoseconds), up to 6 annotations over all selector kinds and alignments incl. offsets relative to annotations and complex selectors, removed slots of every item type, stand-off resources (txt, json, identifier = file name) and datasets; (3) save/modify/save families (14 kinds of modification x resource inline/txt/json x dataset inline/stand-off x once/twice) and an exhaustive small scope: a fixed prefix (resource, annotation with id and data, id-less annotation in mixed alignment) followed by EVERY sequence of 2 (thorough: 3) operations from an alphabet of 22 (all selector kinds, alignments, relative offsets, complex selectors, removals of every kind, save); (3a) exports of copies between modification and save (to_txt_file / to_json_file of a resource, to_json_file of a dataset or of the store document, to backup/ under the member's own file name or another name; 192 requests, and sprinkled over the random histories); (4) histories with one or two sub-stores (family of 60 + random, natural arrangement and late additions; annotations handed to a sub-store in another order than they were made, with and without public ids, moved between sub-stores), (5) the final stores of seeded random histories of the shared store generator (all operations incl. removals with cascades, ids and handles, invalid references, range compression) inline and with stand-off members. Each store is written as STAM JSON pretty and compact, both outputs are parsed into trees and compared with the model's documents, the stand-off files likewise; the store is loaded again from the string and from a file, observed again (canonical observation by names, slot layout, every reverse lookup and id resolution by name), written again (bytes equal), saved with save(), and written with to_file() into ANOTHER directory and loaded from there (the loaded store to an absolute and a relative target; the store of the request built in memory once more with an absolute working directory or - every fourth request - none and a relative target). One evaluation = one compared sub-case (8 per store).";
 pub const EXHAUSTIVE: bool = false;
